@@ -265,7 +265,7 @@ class VerifCtx:
         voc["ite"] = _SpecCallable(lambda ex_, c, a, b: _ite(ex_, c, a, b))
         voc["forall"] = _SpecCallable(lambda ex_, f, *a: _quant(ex_, f, True))
         voc["exists"] = _SpecCallable(lambda ex_, f, *a: _quant(ex_, f, False))
-        voc["isnone"] = _SpecCallable(lambda ex_, v: ex_.is_same(v, None) if True else None)
+        voc["isnone"] = _SpecCallable(lambda ex_, v: (lambda r: r if isinstance(r, bool) else wrap(r))(ex_.is_same(v, None)))
         voc["val"] = _SpecCallable(lambda ex_, v: v.val if isinstance(v, SOpt) else v)
         voc["inre"] = _SpecCallable(lambda ex_, s, pat: wrap(z3.InRe(lift(s), RX.compiled(pat).whole)))
         voc["inre_prefix"] = _SpecCallable(lambda ex_, s, pat: wrap(z3.InRe(lift(s), z3.Concat(RX.compiled(pat).whole, RX.FULL))))
